@@ -220,11 +220,17 @@ func (vm *VM) Run(program *Program, env interface{}) (out interface{}, err error
 			a := vm.pop()
 			min := toInt(a)
 			max := toInt(b)
-			size := max - min + 1
-			if size < 0 {
-				// A range whose end precedes its start is empty: it must
-				// not give memory back to the budget.
-				size = 0
+			// A range whose end precedes its start is empty: it costs
+			// nothing and must not give memory back to the budget. The
+			// element count max-min+1 of the others can exceed the int
+			// range (1..MaxInt64), so it is computed unsigned.
+			size := 0
+			if max >= min {
+				span := uint64(max) - uint64(min)
+				if vm.limit <= 0 || span >= uint64(vm.limit) {
+					panic("memory budget exceeded")
+				}
+				size = int(span) + 1
 			}
 			if vm.memory+size >= vm.limit {
 				panic("memory budget exceeded")
